@@ -60,6 +60,26 @@ func (c cinst) String() string {
 	return sb.String()
 }
 
+// canonicalImm: a decoder has to return immediates in the manual's canonical form (the value the
+// independent disassembler shows): an unsigned field never comes back negative, a signed field
+// never as its unsigned alias. back = Wa's decoder, got = x/arch.
+func canonicalImm(back, got *cinst) (field string, ok bool) {
+	for i := 0; i < back.N; i++ {
+		b := &back.F[i]
+		if isReg(b.Kind) || b.Kind == 'm' {
+			continue
+		}
+		g := got.get(b.Name)
+		if g == nil || g.Kind == '?' || isReg(g.Kind) {
+			continue
+		}
+		if b.Val != g.Val {
+			return b.Name, false
+		}
+	}
+	return "", true
+}
+
 func isReg(k byte) bool { return k == 'x' || k == 'f' || k == 'c' || k == 's' }
 
 // diff compares what the encoder was given (exp) with what an oracle decoded (got). It returns
@@ -247,12 +267,16 @@ func (a *aggregator) flush(report func(key, what string, replay any)) {
 		return all[i].order < all[j].order
 	})
 	// B
-	type bk struct{ arch, oracle, field string }
+	type bk struct{ arch, oracle, field, kind string }
 	bb := map[bk][]*candidate{}
 	var rest []*candidate
 	for _, c := range all {
-		if strings.HasPrefix(c.class, "imm:out-of-range") || c.class == "mem:rip-relative-base-lost" {
-			k := bk{c.arch, c.oracle, c.field}
+		if strings.HasPrefix(c.class, "imm:out-of-range") || c.class == "mem:rip-relative-base-lost" || c.class == "reg:high-byte-register-with-rex-prefix" || c.class == "imm:non-canonical-signedness" {
+			kind := c.class
+			if strings.HasPrefix(kind, "imm:out-of-range") {
+				kind = "imm:out-of-range"
+			}
+			k := bk{c.arch, c.oracle, c.field, kind}
 			bb[k] = append(bb[k], c)
 		} else {
 			rest = append(rest, c)
@@ -276,6 +300,16 @@ func (a *aggregator) flush(report func(key, what string, replay any)) {
 		if cs[0].class == "mem:rip-relative-base-lost" {
 			report(fmt.Sprintf("%s|*|%s|%s|rip-relative-base-lost", k.arch, k.oracle, k.field),
 				fmt.Sprintf("[rip+disp] memory operands are encoded as absolute [disp32] (%d mnemonics: %s); e.g. %s", len(names), strings.Join(names, " "), cs[0].what), cs[0].replay)
+			continue
+		}
+		if cs[0].class == "imm:non-canonical-signedness" {
+			report(fmt.Sprintf("%s|*|%s|%s|non-canonical-signedness", k.arch, k.oracle, k.field),
+				fmt.Sprintf("the decoder returns an unsigned field as a negative number (or a signed field as its unsigned alias) (%d mnemonics: %s); e.g. %s", len(names), strings.Join(names, " "), cs[0].what), cs[0].replay)
+			continue
+		}
+		if cs[0].class == "reg:high-byte-register-with-rex-prefix" {
+			report(fmt.Sprintf("%s|*|%s|%s|high-byte-register-with-rex-prefix", k.arch, k.oracle, k.field),
+				fmt.Sprintf("ah/ch/dh/bh combined with an operand that needs a REX prefix is accepted and encodes spl/bpl/sil/dil (%d mnemonics: %s); e.g. %s", len(names), strings.Join(names, " "), cs[0].what), cs[0].replay)
 			continue
 		}
 		report(fmt.Sprintf("%s|*|%s|%s|out-of-range-accepted", k.arch, k.oracle, k.field),
